@@ -202,8 +202,17 @@ func history(k int, forced []int, reduced bool) {
 		case 3:
 			v := sx.U32("value")
 			pkt := ref.Header(0, 0, 0, dom, id, 0)
-			pkt = ref.U32(pkt, v)
 			i := m.find(dom, id)
+			if !reduced && forced == nil && sx.Choose("emptyDataSet", 2) == 1 {
+				// a data set without any record: still needs a template for its key
+				_, err := cp.VerifDecodePacket(pkt, "1.2.3.4:5")
+				if i < 0 {
+					sx.Assert(err != nil, "empty-data-set-accepted-without-a-template-for-its-key")
+				}
+				sx.Reach("empty-data-set")
+				break
+			}
+			pkt = ref.U32(pkt, v)
 			if i >= 0 && (m.es[i].variant == variantS || m.es[i].variant == variantS4) {
 				// the same 4 bytes read as a string field: 1-byte length 3 + 3 bytes
 				sx.Assume(v>>24 == 3)
